@@ -11,6 +11,7 @@ package main
 import (
 	"fmt"
 	"io/ioutil"
+	"net/url"
 	"os"
 	"path/filepath"
 	"regexp"
@@ -25,12 +26,34 @@ import (
 )
 
 type Env struct {
+	Scheme   string // uc.Scheme ("" = http)
 	Cluster  string
 	TV       []KV // template variables, sorted by key (lower-case keys, as parseEnvironment yields)
 	Defaults Opts // only the seven fields SetUpstreamConfigs fills
 }
 
-const scheme = "http"
+func (e Env) scheme() string {
+	if e.Scheme == "" {
+		return "http"
+	}
+	return e.Scheme
+}
+
+// libURL is the url oracle: what net/url ITSELF makes of a from/to value completed with the
+// configured scheme, as the comment in urlParse documents it ("done intentionally to add a
+// scheme so it is valid to parse"). It deliberately does not call the repository's urlParse:
+// an oracle computed by the code under test is blind to changes of that code.
+func libURL(scheme, s string) (ok bool, sch, host string) {
+	u := s
+	if !strings.Contains(s, "://") {
+		u = scheme + "://" + s
+	}
+	p, err := url.Parse(u)
+	if err != nil {
+		return false, "", ""
+	}
+	return true, p.Scheme, p.Host
+}
 
 var dir string
 
@@ -56,7 +79,7 @@ func realLoad(yaml string, e Env) (res loadResult) {
 	cfg := proxy.DefaultProxyConfig()
 	cfg.UpstreamConfigs.ConfigsFile = f.Name()
 	cfg.UpstreamConfigs.Cluster = e.Cluster
-	cfg.UpstreamConfigs.Scheme = scheme
+	cfg.UpstreamConfigs.Scheme = e.scheme()
 	cfg.UpstreamConfigs.DefaultConfig.ProviderSlug = e.Defaults.Slug
 	cfg.UpstreamConfigs.DefaultConfig.AllowedGroups = e.Defaults.Groups
 	cfg.UpstreamConfigs.DefaultConfig.EmailConfig.AllowedDomains = e.Defaults.Domains
@@ -88,19 +111,20 @@ func nn(l []string) []string {
 }
 
 func coqUp(u proxy.VerifUpstream) string {
-	return fmt.Sprintf("(MU %s %s %s %s %d %s %s %s %s %s %s %s %s %s %s %s %s %s %s %s %s %s)",
+	return fmt.Sprintf("(MU %s %s %s %s %d %s %s %s %s %s %s %s %s %s %s %s %s %s %s %s %s %s %s)",
 		S(u.Service), S(u.From), S(u.To), S(u.Type), u.Kind,
 		coqStrs(u.Groups), coqStrs(u.Domains), coqStrs(u.Addrs), coqStrs(u.Skip),
 		coqNs(u.Timeout), coqNs(u.Reset), coqNs(u.Flush),
 		coqKVs(sortedKVs(u.HeaderOverrides)), coqKVs(sortedKVs(u.InjectRequestHeaders)),
 		c.Bool(u.TLSSkip), c.Bool(u.PreserveHost), c.Bool(u.SkipSigning),
 		c.Bool(u.SkipPreflight), c.Bool(u.PassTok),
-		S(u.ProviderSlug), S(u.Cookie), c.Bool(u.HMAC))
+		S(u.ProviderSlug), S(u.Cookie), c.Bool(u.HMAC),
+		coqStrs([]string{u.FromScheme, u.FromHost, u.ToScheme, u.ToHost}))
 }
 
 // a panic of the loader is an observation: rendered as one impossible upstream (kind 9, no
 // service), which no model run predicts and which fails every fail-closed clause
-var panicUp = "(MU sn0 sn0 sn0 sn0 9 sn sn sn sn (zs 0) (zs 0) (zs 0) kn kn false false false false false sn0 sn0 false)"
+var panicUp = "(MU sn0 sn0 sn0 sn0 9 sn sn sn sn (zs 0) (zs 0) (zs 0) kn kn false false false false false sn0 sn0 false sn)"
 
 func coqEnv(e Env) string {
 	return fmt.Sprintf("(ME %s %s %s)", S(e.Cluster), coqKVs(e.TV), coqOpts(&e.Defaults))
@@ -108,8 +132,9 @@ func coqEnv(e Env) string {
 
 // oracle tables for every string of the (substituted) document the loader could hand to
 // urlParse / regexp.Compile / hmacauth
-func tables(d Doc, e Env) (urls, res, digs map[string]bool) {
+func tables(d Doc, e Env) (urls, res, digs map[string]bool, parts map[string][2]string) {
 	urls, res, digs = map[string]bool{}, map[string]bool{}, map[string]bool{}
+	parts = map[string][2]string{}
 	re := func(s string) {
 		s = subst(e.TV, s)
 		_, err := regexp.Compile(s)
@@ -118,7 +143,9 @@ func tables(d Doc, e Env) (urls, res, digs map[string]bool) {
 	rt := func(r *Route) {
 		for _, s := range []string{r.From, r.To} {
 			s = subst(e.TV, s)
-			urls[s] = proxy.VerifURLParseOK(scheme, s)
+			ok, sch, host := libURL(e.scheme(), s)
+			urls[s] = ok
+			parts[s] = [2]string{sch, host}
 		}
 		re(r.From)
 		if r.Options != nil {
@@ -152,7 +179,11 @@ func tables(d Doc, e Env) (urls, res, digs map[string]bool) {
 func loadCase(d Doc, e Env, r *c.Rng, tag string) Case {
 	yaml := RenderYAML(d, r)
 	res := realLoad(yaml, e)
-	urls, rs, digs := tables(d, e)
+	return loadCaseFrom(d, e, yaml, res, tag)
+}
+
+func loadCaseFrom(d Doc, e Env, yaml string, res loadResult, tag string) Case {
+	urls, rs, digs, parts := tables(d, e)
 	obs := "nu"
 	var jobs interface{}
 	switch {
@@ -169,8 +200,9 @@ func loadCase(d Doc, e Env, r *c.Rng, tag string) Case {
 		obs = "(su " + p.String() + "un" + strings.Repeat(")", len(res.Ups)) + ")"
 		jobs = res.Ups
 	}
-	coq := fmt.Sprintf("CLoad %s %s %s %s %s %s", coqEnv(e), coqTab(urls), coqTab(rs), coqTab(digs), coqDoc(d), obs)
+	coq := fmt.Sprintf("CLoad %s (MT %s %s %s %s %s) %s %s", coqEnv(e), S(e.scheme()), coqTab(urls), coqTab(rs), coqTab(digs), coqParts(parts), coqDoc(d), obs)
 	return mk(coq, map[string]interface{}{"kind": "load", "tag": tag, "yaml": yaml, "cluster": e.Cluster,
+		"scheme": e.scheme(),
 		"template_vars": e.TV, "defaults": e.Defaults, "observed": jobs})
 }
 
@@ -257,6 +289,12 @@ func main() {
 		cases = append(cases, loadCase(w.D, w.E, nil, w.Tag))
 	}
 	cases = append(cases, corpusFiles(a.Corpus)...)
+	auth := c.NewFakeAuth()
+	defer auth.Srv.Close()
+	for _, w := range admitCorpus() {
+		cases = append(cases, admitCases(w.D, w.E, nil, auth, w.Tag+":fwd")...)
+		cases = append(cases, admitCases(reverseDoc(w.D), w.E, nil, auth, w.Tag+":rev")...)
+	}
 	for _, t := range tmplCorpus() {
 		cases = append(cases, tmplCase(t.T, t.TV))
 	}
@@ -264,7 +302,16 @@ func main() {
 	nT := a.N / 10
 	nB := a.N / 25
 	nP := a.N / 4 // positional stream: one defect at a uniformly drawn position of a multi-upstream document
-	for i := 0; i < a.N-nT-nB-nP; i++ {
+	nA := a.N / 15 // admission stream: whole deployments booted through the environment, both orders, every upstream asked
+	if nA > 400 {
+		nA = 400 // every boot leaves the providers' background goroutines of proxy.New behind: bounded in the thorough tier
+	}
+	for i := 0; i < nA; i++ {
+		d, e := genAdmitDoc(r)
+		cases = append(cases, admitCases(d, e, r, auth, "admit:fwd")...)
+		cases = append(cases, admitCases(reverseDoc(d), e, r, auth, "admit:rev")...)
+	}
+	for i := 0; i < a.N-nT-nB-nP-nA; i++ {
 		d, e := genDoc(r)
 		cases = append(cases, loadCase(d, e, r, "gen"))
 	}
